@@ -516,3 +516,98 @@ Lemma example_run :
   reading (tpc r1 1) = true /\ writing (tpc r2 2) = false /\ writing (tpc r4 2) = true /\ reading (tpc r5 3) = false /\
   reading (tpc r6 3) = true /\ rb_bias r6 = true.
 Proof. vm_compute. repeat split. Qed.
+
+(* ---- what exclusion buys: memory guarded by the lock *)
+Lemma rm_inv sched : forall s, RBInv (rm_lock s) -> RBInv (rm_lock (fold_left rm_act sched s)).
+Proof.
+  induction sched as [|a l IH]; intros s H; cbn [fold_left]; [exact H|]. apply IH.
+  destruct a as [[t code] arg]. unfold rm_act. destruct (code =? 5).
+  - destruct (writing (tpc (rm_lock s) t)); exact H.
+  - cbn [rm_lock]. apply rb_act_inv, H.
+Qed.
+
+(* t holds the lock (for reading or for writing) throughout sched: none of t's own actions in sched is a release *)
+Definition keeps (t : Z) (sched : list (Z * Z * Z)) : Prop :=
+  forall a, In a sched -> fst (fst a) = t -> snd (fst a) = 4 \/ snd (fst a) = 5.
+
+Lemma rb_act_other r a t : fst (fst a) <> t -> tpc (rb_act r a) t = tpc r t.
+Proof.
+  destruct a as [[t' code] arg]. cbn [fst]. intro Ne.
+  assert (F : forall r' p, tpc (with_pc r' t' p) t = tpc r' t).
+  { intros r' p. rewrite tpc_set. destruct (Z.eqb_spec t t'); [congruence|reflexivity]. }
+  unfold rb_act, rb_atomic.
+  repeat match goal with
+         | |- context [match ?x with _ => _ end] => destruct x
+         end; rewrite ?F; reflexivity.
+Qed.
+
+Lemma holder_stays r t a : (reading (tpc r t) = true \/ writing (tpc r t) = true) ->
+  (fst (fst a) = t -> snd (fst a) = 4 \/ snd (fst a) = 5) ->
+  tpc (rb_act r a) t = tpc r t.
+Proof.
+  intros Hh Hk. destruct (Z.eq_dec (fst (fst a)) t) as [E|Ne]; [|apply rb_act_other, Ne].
+  destruct a as [[t' code] arg]. cbn [fst snd] in *. subst t'. destruct (Hk eq_refl) as [->| ->]; [|reflexivity].
+  cbn [rb_act]. unfold rb_atomic. destruct (tpc r t) eqn:Ep; cbn in Hh; destruct Hh; try discriminate; exact Ep.
+Qed.
+
+(* a reader that keeps the lock sees the cell unchanged; a writer that keeps the lock is the only one who writes *)
+Lemma reader_stable sched : forall s t, RBInv (rm_lock s) -> reading (tpc (rm_lock s) t) = true -> keeps t sched ->
+  let s' := fold_left rm_act sched s in
+  rm_val s' = rm_val s /\ rm_writes s' = rm_writes s /\ tpc (rm_lock s') t = tpc (rm_lock s) t.
+Proof.
+  induction sched as [|a l IH]; intros s t HI Hr Hk; cbn [fold_left]; [auto|].
+  assert (Hk' : keeps t l) by (intros x Hx; apply Hk; right; exact Hx).
+  pose proof (Hk a (or_introl eq_refl)) as Ha.
+  assert (Step : RBInv (rm_lock (rm_act s a)) /\ rm_val (rm_act s a) = rm_val s /\ rm_writes (rm_act s a) = rm_writes s /\
+                 tpc (rm_lock (rm_act s a)) t = tpc (rm_lock s) t).
+  { destruct a as [[t' code] arg]. unfold rm_act. destruct (Z.eqb_spec code 5) as [->|N5].
+    - destruct (writing (tpc (rm_lock s) t')) eqn:W; [|auto].
+      destruct (excl_of_inv (rm_lock s) t' t HI W) as (Nr & _). congruence.
+    - cbn [rm_lock rm_val rm_writes]. split; [apply rb_act_inv, HI|]. split; [reflexivity|]. split; [reflexivity|].
+      apply holder_stays; [left; exact Hr|exact Ha]. }
+  destruct Step as (I1 & V1 & W1 & P1).
+  destruct (IH (rm_act s a) t I1 ltac:(rewrite P1; exact Hr) Hk') as (V & W & P). cbv zeta in *.
+  rewrite V, W, P, V1, W1, P1. auto.
+Qed.
+
+Definition own_writes (t : Z) (sched : list (Z * Z * Z)) : Z :=
+  Z.of_nat (length (filter (fun a => (fst (fst a) =? t) && (snd (fst a) =? 5)) sched)).
+
+Lemma writer_exclusive sched : forall s t, RBInv (rm_lock s) -> writing (tpc (rm_lock s) t) = true -> keeps t sched ->
+  let s' := fold_left rm_act sched s in
+  rm_writes s' = rm_writes s + own_writes t sched /\ tpc (rm_lock s') t = tpc (rm_lock s) t.
+Proof.
+  induction sched as [|a l IH]; intros s t HI Hw Hk; cbn [fold_left]; [unfold own_writes; cbn; split; [lia|reflexivity]|].
+  assert (Hk' : keeps t l) by (intros x Hx; apply Hk; right; exact Hx).
+  pose proof (Hk a (or_introl eq_refl)) as Ha.
+  assert (Step : RBInv (rm_lock (rm_act s a)) /\
+                 rm_writes (rm_act s a) = rm_writes s + (if (fst (fst a) =? t) && (snd (fst a) =? 5) then 1 else 0) /\
+                 tpc (rm_lock (rm_act s a)) t = tpc (rm_lock s) t).
+  { destruct a as [[t' code] arg]. unfold rm_act. cbn [fst snd]. destruct (Z.eqb_spec code 5) as [->|N5].
+    - destruct (writing (tpc (rm_lock s) t')) eqn:W.
+      + destruct (excl_of_inv (rm_lock s) t t' HI Hw) as (_ & U). specialize (U W). subst t'.
+        rewrite Z.eqb_refl. cbn [andb rm_lock rm_writes]. auto.
+      + destruct (Z.eqb_spec t' t) as [->|]; [congruence|]. cbn [andb]. split; [exact HI|split; [lia|reflexivity]].
+    - cbn [rm_lock rm_writes]. rewrite andb_false_r. split; [apply rb_act_inv, HI|]. split; [lia|].
+      apply holder_stays; [right; exact Hw|exact Ha]. }
+  destruct Step as (I1 & W1 & P1).
+  destruct (IH (rm_act s a) t I1 ltac:(rewrite P1; exact Hw) Hk') as (W & P). cbv zeta in *.
+  rewrite W, P, W1, P1. split; [|reflexivity]. unfold own_writes. cbn [filter].
+  destruct ((fst (fst a) =? t) && (snd (fst a) =? 5)); cbn [length]; lia.
+Qed.
+
+(* from the initial state, after any schedule *)
+Lemma reader_stable_reach pre sched n t : 1 <= n ->
+  let s := fold_left rm_act pre (rm_new n) in
+  reading (tpc (rm_lock s) t) = true -> keeps t sched ->
+  rm_val (fold_left rm_act sched s) = rm_val s.
+Proof.
+  intros Hn s Hr Hk. apply (reader_stable sched s t); [apply rm_inv, RBInv_init, Hn|exact Hr|exact Hk].
+Qed.
+Lemma writer_exclusive_reach pre sched n t : 1 <= n ->
+  let s := fold_left rm_act pre (rm_new n) in
+  writing (tpc (rm_lock s) t) = true -> keeps t sched ->
+  rm_writes (fold_left rm_act sched s) = rm_writes s + own_writes t sched.
+Proof.
+  intros Hn s Hw Hk. apply (writer_exclusive sched s t); [apply rm_inv, RBInv_init, Hn|exact Hw|exact Hk].
+Qed.
